@@ -386,17 +386,12 @@ def estimate_checks(ctx, n):
                 report_once(ctx, "estimate_rf/estimate_alpha raised %s on a constant-phase waveform: %s" % (type(e).__name__, str(e)[:150]),
                             {"case": case}, True, {"function": "estimate", "raises": type(e).__name__})
                 continue
-            if alpha == 0.0:
-                if a2 == -180.0:
-                    report_once(ctx, "estimate_alpha(values, rf=0) returns -180 instead of 0 (np.mod(Z + 1, 2) - 1 maps Z = 1 to -1)",
-                                {"case": case, "rf": rf, "returned": a2}, True,
-                                {"function": "estimate_alpha", "input": "rf=0"})
-                elif abs(a2) > 1e-9:
-                    ctx.report("estimate_alpha(values, rf=0) returns %r" % a2, {"case": case}, found_input=True,
-                               signature={"function": "estimate_alpha", "input": "rf=0", "returned": "other"})
+            if alpha == 0.0 and abs(a2) > 1e-9:
+                report_once(ctx, "estimate_alpha(values, rf=0) returns %r instead of 0" % a2,
+                            {"case": case, "rf": rf, "returned": a2}, True, {"function": "estimate_alpha", "input": "rf=0"})
                 continue
-            if alpha == 180.0 and abs(math.cos(math.radians(a2)) + 1) > 1e-9:
-                report_once(ctx, "estimate_alpha(values, estimate_rf(values, 180)) returns %r: Z rounds below -1 and np.mod(Z + 1, 2) - 1 wraps it to +1" % a2,
+            if alpha == 180.0 and abs(a2 - 180.0) > 1e-5:
+                report_once(ctx, "estimate_alpha(values, estimate_rf(values, 180)) returns %r instead of 180" % a2,
                             {"case": case, "rf": rf, "returned": a2}, True, {"function": "estimate_alpha", "input": "alpha=180"})
                 continue
             if abs(math.cos(math.radians(a2)) - math.cos(math.radians(alpha))) > 1e-9:
@@ -406,21 +401,34 @@ def estimate_checks(ctx, n):
             if rf2 is not None and abs(rf2 - rf) > 1e-6 * (1 + abs(rf)) * (1 + 1 / math.sin(math.radians(alpha))):
                 ctx.report("estimate_rf(values, estimate_alpha(values, rf)) = %r, rf = %r" % (rf2, rf), {"case": case}, found_input=True,
                            signature={"function": "estimate_inverse_rf"})
-            if 1.0 <= alpha <= 179.0 and len(goals) < 2 * n:
+            if (1.0 <= alpha <= 179.0 or alpha in (0.0, 180.0)) and len(goals) < 3 * n:
                 # closed form proved in Coq (estimate_alpha_cp): cos(alpha_out) = cos(PI/180 * (rf * 180 * S)); checked by Interval
                 goals.append("Goal Rabs (cos (PI / 180 * %s) - cos (PI / 180 * (%s * 180 * %s))) <= 1 / 1000000000.\nProof. tie %d%%nat. Abort." % (
                     rlit(fr(a2)), rlit(fr(rf)), rlit(S), len(goals)))
                 meta.append(case)
-    # rf = 0 directly, any waveform
+    # regression cases (former findings, fixed by 4cedc70 / 8b5ca87): must pass now
     z = float(rfpulse.estimate_alpha(np.array([0.5, 0.25j]), 0))
     ctx.count(("est", "rf0"))
-    if z == -180.0:
-        report_once(ctx, "estimate_alpha(values, rf=0) returns -180 instead of 0 (np.mod(Z + 1, 2) - 1 maps Z = 1 to -1)",
+    if abs(z) > 1e-9:
+        report_once(ctx, "estimate_alpha(values, rf=0) returns %r instead of 0" % z,
                     {"case": {"kind": "estimate_rf0", "values": [[0.5, 0], [0, 0.25]]}, "returned": z}, True,
                     {"function": "estimate_alpha", "input": "rf=0"})
-    elif abs(z) > 1e-9:
-        ctx.report("estimate_alpha(values, rf=0) returns %r" % z, {"case": {"kind": "estimate_rf0"}}, found_input=True,
-                   signature={"function": "estimate_alpha", "input": "rf=0", "returned": "other"})
+    import epgpy as epg
+    ctx.count(("dur", "per-sample"))
+    for durs in ([1, 2, 0.5, 4], np.array([1, 2, 0.5, 4.0])):
+        case = {"kind": "duration_regression", "durations": [float(x) for x in durs]}
+        try:
+            pp = rfpulse.RFPulse([0.375 + 0.5j, 0.5, -0.25j, 0], durs, rf=0.5)
+            m = epg.T(10, 0, duration=1) * pp
+            enc = rfpulse.encode_phase(pp, 10, 20, npoint=5, rewind=True)
+            ok = np.ndim(pp.duration) == 0 and float(pp.duration) == 7.5 and np.ndim(m.duration) == 0 and float(m.duration) == 8.5 \
+                and scal(enc.operators[-1].tau) == 3.75
+            why = "RFPulse.duration %r, (T*pulse).duration %r, rewinder tau %r" % (pp.duration, m.duration, enc.operators[-1].tau)
+        except Exception as e:
+            ok, why = False, "%s: %s" % (type(e).__name__, str(e)[:150])
+        if not ok:
+            report_once(ctx, "per-sample durations: expected total 7.5 / 8.5 / rewinder 3.75, got " + why, {"case": case}, True,
+                        {"function": "RFPulse.__init__", "input": "per-sample durations"})
     return goals, meta
 
 
@@ -568,7 +576,7 @@ def run(ctx):
         "translator /verif/translator (Gen/Transition.v, Gen/Evolution.v: T_op, Phi_op, E_op, P_op), tied to epgpy by the Interval tie of C01",
         "hand-written model Model/RFPulse.v tied to epgpy.rfpulse by the correspondence over Qc (tolerance 1e-12 relative)",
         "external numerics: np.abs, np.angle(deg=True), np.abs(np.sum(values)) of the samples (checked against exact moduli / atan2 to 1e-12)",
-        "numpy.mod modelled as x - m*floor(x/m); np.arccos as Coq's acos; epg.T / epg.E / epg.P operators themselves (C01)",
+        "np.clip modelled as Rmin (Rmax z (-1)) 1; np.arccos as Coq's acos; epg.T / epg.E / epg.P operators themselves (C01)",
         "Coquelicot + Interval libraries; axioms as printed by Print Assumptions (classical reals, functional extensionality, classic)",
         "effect checks (b) and estimate checks (c) are random testing with tolerance 1e-10 / 1e-9; Interval tie at %d points" % nt]
     if not proved:
@@ -654,6 +662,12 @@ def replay(ctx, rp):
         print("replay: estimate_rf(values, %r) = %r; estimate_alpha(values, %r) = %r" % (alpha, rf, rf, a2))
         bad = abs(math.cos(math.radians(a2)) - math.cos(math.radians(alpha))) > 1e-9
         return 1 if bad else 0
+    if k == "duration_regression":
+        import epgpy as epg
+        from epgpy import rfpulse
+        pp = rfpulse.RFPulse([0.375 + 0.5j, 0.5, -0.25j, 0], c["durations"], rf=0.5)
+        print("replay: RFPulse.duration =", pp.duration)
+        return 0 if np.ndim(pp.duration) == 0 and float(pp.duration) == 7.5 else 1
     if k == "const_phase":
         import epgpy as epg
         from epgpy import rfpulse
